@@ -42,8 +42,9 @@ ASSUMPTIONS = [
     "notes of one chord are simultaneous: the decoded chord is compared as a multiset of (name, octave) / (step, alter, octave)",
     "an entry holding an empty NoteContainer is silent for its length, i.e. must decode as a rest of that value",
     "LilyPond key/time: every \\key / \\time that is shown must equal the bar's key (tonic, mode) / meter; it must be shown in "
-    "bar i>0 of a track when it differs from bar i-1 and in from_Bar when the caller asks for it; the first bar of a track is "
-    "not required to show anything (the statement says 'shown or changes between bars')",
+    "bar i>0 of a track when it differs from bar i-1 and in from_Bar when the caller asks for it; at the start of a track "
+    "LilyPond's own defaults (c major, 4/4) are in force, so a first bar in another key or meter counts as a change from those "
+    "defaults and must show it (otherwise the text cannot decode to the same music); a first bar in C major 4/4 need not show anything",
     "from_Note(process_octaves=False) and from_NoteContainer(duration=None) were asked to omit octave / duration: only the "
     "remaining content is compared",
     "LilyPond header: title must be the 'title' field; author and subtitle must be the value of some header field (mingus "
@@ -314,6 +315,18 @@ def check_ly_track(S, site, exp_bars, bars):
         s = "%s bar %d" % (site, i)
         compare_entries(S, s, eb["entries"], rb["entries"])
         check_shown(S, s, rb, eb["key"], eb["meter"])
+        if i == 0:
+            # start of a staff: LilyPond's defaults (C major, 4/4) are in force until something is shown
+            if eb["key"] != "C":
+                S.count("ly_first_bar_not_default_key")
+                if not rb["keys"]:
+                    S.problem(s + ": first bar of the track is in %s, LilyPond's default is c \\major" % eb["key"],
+                              list(key_parts(eb["key"])), "not shown", tags={"what": "keychange"})
+            if list(eb["meter"]) != [4, 4]:
+                S.count("ly_first_bar_not_default_meter")
+                if not rb["times"]:
+                    S.problem(s + ": first bar of the track is in %s, LilyPond's default is 4/4" % (eb["meter"],),
+                              eb["meter"], "not shown", tags={"what": "timechange"})
         if i > 0:
             if eb["key"] != exp_bars[i - 1]["key"]:
                 S.count("ly_key_changes")
@@ -690,6 +703,9 @@ def zoo_tracks():
         {"bars": [z[0]]},
         {"bars": [z[2], z[4]], "name": "Bass & <Drums>", "instr": "Piano"},
         {"bars": [z[1], z[5], z[3]], "name": "", "instr": "Midi", "iname": "Tin \"whistle\""},
+        # tracks that begin in the key / meter another one ends in (nothing may carry over between tracks)
+        {"bars": [z[4]], "name": "three-four"},
+        {"bars": [z[2]], "name": "E major"},
     ]
 
 
